@@ -39,6 +39,35 @@ def run(ctx):
         ctx.nontrivial_key(p)
     ctx.sample({"validated_program": " ".join(S.render(f) for f in progs[0])})
     ctx.stage("validate", programs=n, injected=kinds, forms_that_raised_an_error=nerr, mismatches=len(mism))
+    # ---- error storms: hundreds of faults of every kind on ONE interpreter, each raised several procedure calls deep and
+    # in every calling context, with probes in between: "after the error the interpreter ... evaluates later forms normally"
+    # must hold after the 500th error as after the first
+    storms = []
+    for _ in range(4 if tier == "quick" else 16):
+        forms = [S.define("s", S.lit(0)), S.define("proc-one", S.lam(["z"], [S.var("z")])),
+                 S.define("deep", S.lam(["n", "th"], [S.if_(S.app("=", S.var("n"), S.lit(0)), S.app("th"),
+                                                           S.app("+", S.lit(0), S.app("deep", S.app("-", S.var("n"), S.lit(1)), S.var("th"))))])),
+                 S.define("deep-tail", S.lam(["n", "th"], [S.if_(S.app("=", S.var("n"), S.lit(0)), S.app("th"),
+                                                                S.app("deep-tail", S.app("-", S.var("n"), S.lit(1)), S.var("th")))]))]
+        for k in range(150 if tier == "quick" else 400):
+            fk = rng.choice(sorted(G.FAULTS))
+            fault = G.FAULTS[fk](rng)
+            thunk = S.lam([], [S.set_("s", S.app("+", S.var("s"), S.lit(1))), fault])
+            ctxk = rng.random()
+            if ctxk < 0.4:
+                forms.append(S.app("deep", S.lit(rng.randint(6, 14)), thunk))
+            elif ctxk < 0.6:
+                forms.append(S.app("deep-tail", S.lit(rng.randint(6, 14)), thunk))
+            elif ctxk < 0.8:
+                forms.append(S.app(rng.choice(["map", "for-each"]), S.lam(["q"], [S.app("deep", S.lit(3), thunk)]), S.quote(S.vlist([S.vint(1), S.vint(2)]))))
+            else:
+                forms.append(S.app("apply", S.var("deep"), S.app("list", S.lit(4), thunk)))
+            if k % 4 == 0:
+                forms.append(S.app("list", S.var("s"), S.app("proc-one", S.lit(k)), S.app("deep", S.lit(5), S.lam([], [S.lit(k)]))))
+        storms.append(forms)
+    mism2, results2 = M.validate_programs(ctx, storms, "storm", shards=min(8, len(storms)), maxsteps=20000)
+    M.report_mismatches(ctx, storms, mism2, sigs_fn)
+    ctx.stage("storm", programs=len(storms), forms=sum(len(p) for p in storms), mismatches=len(mism2))
     ctx.assumptions += ["error kinds are compared as classes (message text and the Type named in a type error are not)",
                         "faults are injected only in sequenced positions, so the effects completed before the fault are determined by R7RS"]
     return ctx.finish(rule="replay: Programs!FaultFamily (10 faulting operations x 11 calling contexts x position) compared form by form incl. the probes after the fault; "
